@@ -164,7 +164,7 @@ def r3(ctx, facts):
 def r4(ctx, facts):
     # iterators: closures that call J::get must pass their own parameter (the item of the mask iterator) and the captured values
     n = 0
-    for b in facts.all_bodies:
+    for b in facts.bodies:     # closures that were not absorbed into the body that builds them (those are examined there, below)
         if b.kind != "Closure":
             continue
         par = b.path.rsplit("::{closure", 1)[0]
@@ -190,9 +190,10 @@ def r4(ctx, facts):
                    "" if ok and fed else "index handed to J::get is not the closure's item parameter (%r) or the closure is not driven by the key iterator (%s)" % (io, fed))
     # the same plumbing written without a closure: `match self.keys.next() { Some(idx) => J::get(&mut self.values, idx) .. }`
     for b in facts.bodies:
-        if b.kind == "Closure" or not b.self_ty or base_ty(b.self_ty) not in ("join::JoinIter", "join::lend_join::JoinLendIter") or b.name not in ("next", "for_each"):
+        if b.kind == "Closure" or not b.self_ty or base_ty(b.self_ty) not in ("join::JoinIter", "join::lend_join::JoinLendIter", "join::par_join::JoinProducer") or \
+                b.name not in ("next", "for_each", "fold_with"):
             continue
-        for bb, t in b.calls():
+        for bb, t in b.real_calls():
             if norm(t["callee"].get("path")) != "JOIN::get":
                 continue
             n += 1
